@@ -790,13 +790,20 @@ MODELLED = {
     "validator.View": "TView", "validator.BlockHeader": "TBlockHeader", "validator.ReplicaCommit": "TReplicaCommit",
     "validator.CommitQC": "TCommitQC", "validator.ReplicaTimeout": "TReplicaTimeout", "validator.TimeoutQC": "TTimeoutQC",
 }
-PARTIAL = ("Proved for every schema: canonical_raw maps every reading (`denote`) of a byte string to the canonical bytes of the value read, "
-           "and the canonical bytes are invariant under reordering of different fields at any depth. `denote` excludes empty packed chunks and packed "
-           "chunks on singular fields (canonical_raw panics on the former, accepts the latter although it is not valid protobuf). "
-           "Typed build/read are modelled for Duration, Timestamp, SocketAddr, BitVector, View, BlockHeader, ReplicaCommit, CommitQC, ReplicaTimeout, TimeoutQC; "
-           "the other wire/storage types (ProposalJustification ... RPC messages) are covered by the schema-level theorems, the canonical_raw correspondence on "
-           "their real descriptors and the implementation-only predicates, not by typed theorems. prost's decoder is represented by `denote`; keccak and the "
-           "validity of keys/signatures are outside the model.")
+PARTIAL = ("Proved for every schema: canonical_raw maps every reading (`denote`) of a byte string to the canonical bytes of the value read; "
+           "the canonical bytes are invariant under reordering of different fields at any depth; for schemas without packed repeated scalars "
+           "(all production schemas, checked on the regenerated schema) the canonical bytes of a well-formed sorted value are read back as exactly "
+           "that value and are a fixed point of canonical_raw. `denote` excludes empty packed chunks and packed chunks on singular fields "
+           "(canonical_raw panics on the former, accepts the latter although it is not valid protobuf); byte-level read-back for schemas WITH "
+           "packed repeated scalars (only the synthetic test schema) is covered by correspondence, not by a theorem. "
+           "Typed build/read with round-trip theorems: Duration, Timestamp, SocketAddr, BitVector, View, BlockHeader, ReplicaCommit, CommitQC, "
+           "ReplicaTimeout, TimeoutQC (incl. total order of the transcribed derived Ord and insertion-order irrelevance of the BTreeMap); their "
+           "round trip THROUGH BYTES is the generic theorem C09_typed_roundtrip_bytes whose premise dmsg_ok (entries sorted, sizes below 4 GiB) is "
+           "discharged for a concrete View only, not per type for all values. The other wire/storage types (ProposalJustification, LeaderProposal, "
+           "ReplicaNewView, ChonkyMsg, ConsensusMsg, Msg, Signed, FinalBlock, Block, ReplicaState, Genesis, Schedule, NetAddress, handshakes, RPC "
+           "messages) have no typed model: they are covered by the schema-level theorems, by the canonical_raw correspondence on their real "
+           "descriptors and by the implementation-only predicates (59 type names). prost's decoder is represented by `denote`; keccak and the "
+           "validity of keys/signatures are outside the model; hash_agrees is the corollary 'equal bytes' only.")
 I64MIN, I64MAX = -(1 << 63), (1 << 63) - 1
 
 
